@@ -117,5 +117,25 @@ def native_replay(ob_id, v):
     return None
 
 
+class LoopReceives(Obligation):
+    pass
+
+
+def _loop_receives(ctx):
+    # C07.c: the subscription actor loop takes the next request from its mailbox in every state (any backlog length,
+    # any outstanding set): there is no condition under which it stops serving its mailbox
+    from props.actor_steps import ActorLoop, tagged, filt
+    ob = ActorLoop(ctx, 1, 1, 1, True, 'receives', 'C07.c-loop-always-receives')
+    ob.lazy_len = True
+    ob.desc = 'the subscription actor loop takes the request out of its mailbox and parks again, for every backlog length and outstanding set (no state makes it stop serving)'
+    base_claims = ob.claims
+
+    def claims(ip, p, res):
+        return [tagged('receives', 'the loop parks (it neither ends nor panics)', res['parked']),
+                tagged('receives', 'the request was taken from the mailbox', res['left'] == 0), Cover('request handled')]
+    ob.claims = claims
+    return ob
+
+
 def obligations(ctx, cfg):
-    return [WaitFor(ctx, 'topic'), WaitFor(ctx, 'subscription'), Acyclic()]
+    return [WaitFor(ctx, 'topic'), WaitFor(ctx, 'subscription'), Acyclic(), _loop_receives(ctx)]
